@@ -32,15 +32,16 @@ def parsePage3 (n st f : String) : Option (Nat × Option PState × List Char) :=
   | _, _ => none
 
 /-- an optional page annotation: `m` (metadata change) or `B<n>` (size of the page's RESULT body in bytes,
-at most 16 MiB - a dimension of the harness only: the page loop does not look at sizes) -/
+at most 16 MiB) or `Z<n>` (every row carries `n` zero bytes: a highly compressible page) - dimensions of the
+harness only: the page loop does not look at sizes or contents -/
 def annotOk (x : String) : Bool :=
-  x == "m" || (x.startsWith "B" && (match (x.drop 1).toString.toNat? with | some n => decide (n ≤ 16777216) | none => false))
+  x == "m" || ((x.startsWith "B" || x.startsWith "Z") && (match (x.drop 1).toString.toNat? with | some n => decide (n ≤ 16777216) | none => false))
 
 def parsePage (w : String) : Option (Nat × Option PState × List Char) :=
   match w.splitOn ":" with
   | [n, st, f] => parsePage3 n st f
   | [n, st, f, x] => if annotOk x then parsePage3 n st f else none
-  | [n, st, f, "m", y] => if y.startsWith "B" && annotOk y then parsePage3 n st f else none
+  | [n, st, f, "m", y] => if (y.startsWith "B" || y.startsWith "Z") && annotOk y then parsePage3 n st f else none
   | _ => none
 
 /-- does the page token announce a metadata change (`:m`)? -/
@@ -51,7 +52,7 @@ def pageChanges (w : String) : Bool :=
 
 def pageSized (w : String) : Bool :=
   match w.splitOn ":" with
-  | [_, _, _, x] => x.startsWith "B"
+  | [_, _, _, x] => x.startsWith "B" || x.startsWith "Z"
   | [_, _, _, _, _] => true
   | _ => false
 
@@ -169,7 +170,11 @@ def runCore (case impl : String) : String :=
   match words case with
   | kind :: skip :: cons :: pageWords =>
     if kindOf kind == none then "bad-case" else
-    if skip != "0" && skip != "1" && skip != "2" && skip != "3" then "bad-case" else
+    -- modes: 0/1 skip flag, 2/3 metadata-id extension, 4..7 frame compression (LZ4 / Snappy, without / with cached
+    -- metadata) - compression is below the page loop: the model does not look at it
+    if !(["0", "1", "2", "3", "4", "5", "6", "7"].contains skip) then "bad-case" else
+    let compressed := skip == "4" || skip == "5" || skip == "6" || skip == "7"
+    if compressed && (kind.startsWith "clu" || kind.startsWith "cls" || kind == "ctl") then "bad-case" else
     let ext := skip == "2" || skip == "3"
     if !ext && pageWords.any pageChanges then "bad-case" else
     if ext && pageWords.any pageSized then "bad-case" else
